@@ -1,31 +1,44 @@
-import sys, random, collections, json
+"""C38 sweep: run one generator stream of c38.py outside the harness and tabulate the failure signatures.
+
+  python _dfpart_sweep38.py <misc|keys|cum|spec> <seed> [scale] [-v] [-b]     (DASK_REPO=... for a scratch worktree)
+
+Failures without a signature (None), CRASH and DISAGREE lines are printed with their smallest inputs; -v prints inputs for
+every signature, -b the branch histogram. The Lean model is not consulted (agg_model needs the driver: use ./check)."""
+import sys, random, collections, json, warnings, time
 sys.path.insert(0,'/verif/harness')
 import core; core.setup_repo_path()
-import warnings; warnings.filterwarnings('ignore')
+warnings.filterwarnings('ignore')
 dd=core.import_dd()
 from props import c38
 class Ctx:
-    def __init__(s): s.rng=random.Random(int(sys.argv[2]) if len(sys.argv)>2 else 12345); s.fails=[]; s.tier='quick'
-    def n(s,q,t=None): return q
+    def __init__(s, seed): s.rng=random.Random(seed); s.fails=[]; s.tier='quick'; s.br=collections.Counter(); s.scale=float(sys.argv[3]) if len(sys.argv)>3 else 1.0
+    def n(s,q,t=None): return max(1,int(q*s.scale))
     def thorough(s): return False
-    def branch(s,n): pass
+    def branch(s,n): s.br[n]+=1
     def note(s,k,v=1): pass
-    def fail(s,what,sig=None,**kw): s.fails.append((sig,what[:80]))
+    def fail(s,what,sig=None,**kw): s.fails.append((sig,what[:300]))
     def eq(s,*a): return True
-    def disagree(s,*a): pass
+    def disagree(s,*a): s.fails.append(('DISAGREE',str(a)[:200]))
     def lean(s,*a): raise RuntimeError
-ctx=Ctx()
-rng=ctx.rng
-ops=["nunique","idxmin","idxmax","std","cov","corr","value_counts","cumsum","cumprod","cumcount","transform","shift","ffill","bfill","apply","apply_first","median"]
-seen=collections.Counter()
-for it in range(int(sys.argv[1])):
-    kk=rng.choice(['cat','nakey'])
-    inp=c38._rand_frame(rng,kk); inp['op']=rng.choice(ops); c38._rand_cfg(rng,inp)
-    if kk=='cat': inp['observed']=False
-    else: inp['dropna']=rng.choice([True,None])
-    inp['periods']=rng.choice([1,2,-1])
+which=sys.argv[1]; seed=int(sys.argv[2])
+ctx=Ctx(seed)
+gen={'misc':c38._gen_misc,'keys':c38._gen_agg_keys,'cum':c38._gen_cumulative,'spec':c38._gen_agg_spec}[which](ctx)
+seen=collections.Counter(); ex={}; n=0; t0=time.process_time()
+for sec,inp in gen:
+    n+=1
     n0=len(ctx.fails)
-    try: c38.case_misc(ctx,inp)
-    except Exception as e: ctx.fails.append(('CRASH',repr(e)[:80]))
-    for sg,w in ctx.fails[n0:]: seen[(sg,)]+=1
-for k,v in sorted(seen.items(), key=lambda x:str(x)): print(v,k)
+    try: c38.CASES[sec](ctx,inp)
+    except Exception as e:
+        import traceback
+        ctx.fails.append(('CRASH',traceback.format_exc()[-400:]))
+    for sg,w in ctx.fails[n0:]:
+        seen[sg]+=1
+        L=ex.setdefault(sg,[])
+        if len(L)<3 or len(inp['c'])<max(len(x[0]['c']) for x in L):
+            L.append((inp,w)); L.sort(key=lambda x:len(x[0]['c'])); del L[3:]
+print('cases',n,'cpu',time.process_time()-t0)
+for k,v in sorted(seen.items(), key=lambda x:str(x)):
+    print(v,k)
+    if k is None or k in ('CRASH','DISAGREE') or '-v' in sys.argv:
+        for inp,w in ex[k]: print('    ',json.dumps(inp)); print('      ',w)
+print({k:v for k,v in sorted(ctx.br.items())} if '-b' in sys.argv else '')
